@@ -570,8 +570,9 @@ class Gen:
                 if k == 'ic' or prev == 'html' and not self.spell or \
                         self.reflow and prev in ('html', 'q', 'ul', 'ol'):
                     gap = max(gap, 1)
-                if gap == 0 and (self._starts_indented(b) or not may_follow_directly(b)):
-                    gap = 1
+                if gap == 0 and (self._starts_indented(b) or not may_follow_directly(b)
+                                 or k == 'q' and prev == 'q'):
+                    gap = 1         # (two quotes without a blank line between them are one quote)
             b[1]['gap'] = gap
             if first and parent == 'li' or self.normal and prev in ('ul', 'ol'):
                 self._unindent_first(b)
@@ -933,7 +934,8 @@ def enforce_domain(tree, normal=False):
                     ok[0] = False
                 if i and b[1].get('gap', 0) == 0:
                     ls = s_block(b)
-                    if normal or ls and ls[0][0].startswith('    ') or not may_follow_directly(b):
+                    if normal or ls and ls[0][0].startswith('    ') or not may_follow_directly(b) \
+                            or b[0] == 'q' and kids[i - 1][0] == 'q':
                         b[1]['gap'] = 1
                 if normal and i and kids[i - 1][0] in ('ul', 'ol'):
                     if b[0] == 'ic':
